@@ -553,7 +553,7 @@ pub mod state {
         pub open spec fn reopen_flags() -> OpenFlags { OpenFlags { write: false, create: true, append: true, truncate: false } }
     //@ fn src/writers/file_log_writer/state.rs impl State / fn reopen_outputfile
     //@   ret r
-    //@   props C18
+    //@   props C18,C14
     //@   rule R1b 3
     //@   ens[reopen.post.frame] final(self).reopen_frame(old(self))
     //@   ens[reopen.post.initial] !old(self).active() ==> r is Ok && *final(self) == *old(self)
@@ -596,7 +596,7 @@ pub mod state {
     }
     //@ fn src/writers/file_log_writer/state.rs fn open_log_file
     //@   ret r
-    //@   props C06,C15,C16,C01
+    //@   props C06,C15,C16,C01,C14
     //@   rule R1 2
     //@   rule R1b 2
     //@   ens[open_log_file.post.path] r is Ok ==> pathbuf_view(&r->Ok_0.1) == config.file_spec.path_spec(ostr(o_infix))
@@ -673,7 +673,7 @@ pub mod state {
         }
         //@ fn src/writers/file_log_writer/state/numbers.rs fn index_for_rcurrent
         //@   ret r
-        //@   props C01,C06,C19
+        //@   props C01,C06,C19,C14
         //@   req o_index_for_rcurrent is Some ==> o_index_for_rcurrent->Some_0 < u32::MAX
         //@   req o_index_for_rcurrent is None && highest_index_spec(&config.file_spec) is Some ==> highest_index_spec(&config.file_spec)->Some_0 < u32::MAX - 1
         //@   closure 1 sig || -> (r: Option<u32>)
